@@ -136,7 +136,11 @@ func driveC09(args []string) error {
 			}
 		}
 	}
-	for i := 0; i < 20000; i++ {
+	nr := 20000
+	if thorough() {
+		nr = 2000000
+	}
+	for i := 0; i < nr; i++ {
 		writeCReg([]int{0, rng.Intn(256), rng.Intn(256), rng.Intn(256), rng.Intn(256)}, rng.Intn(7), false)
 	}
 	// gradient-encoding values
